@@ -3,7 +3,7 @@ import os, json, re, itertools, concurrent.futures
 import vlib
 
 PROP_FILES = ['Properties/C06', 'Properties/C06_bridge']
-EXTRA_OBLIGATION_FILES = ['Proofs/X25519']
+EXTRA_OBLIGATION_FILES = ['Proofs/X25519', 'Proofs/AtomFront']
 TRUSTED = [
     'Coq 8.16.1 kernel incl. vm_compute (no native_compute); every C06 theorem is Closed under the global context',
     'SECTION HYPOTHESIS dh_comm (forall a b, dh a (pub b) = dh b (pub a)): commutativity of X25519 is NOT proved; it appears as a premise of '
@@ -597,3 +597,9 @@ MANIFEST = dict(
     level_note='Trusted: Coq kernel; extraction; dh_comm (validated against Go on every handshake, RFC 7748 vectors in Coq); uTLS/net/http/gorilla as '
                'black boxes (real hellos are shown to satisfy wf_client_hello by correspondence only).',
     design_ref='DESIGN.md section 6, C06')
+
+
+# generated obligation of the front door (Proofs/AtomFront.v): every connection's first packet, parsed hello and reply are
+# values of that connection alone - no byte buffer at package level, no pooled object (or a view of it) used after its
+# Put, no goroutine sharing a buffer with its spawner
+TRUSTED = list(TRUSTED) + ['generated obligations Proofs/AtomFront.v about coq/Gen/Atomicity.v (tools/lockscan, go/ast: package-level variables with the kind of their type, sync.Pool.Put sites with the later mentions of the object or of a local view of its memory - slicings, dereferences, appends, local function literals that mention it, results handed out by a function whose Put is deferred -, variables shared by go statements); re-proved on every run, in a private re-generated copy under VERIF_EXTRA_OVERLAY']
